@@ -142,9 +142,10 @@ def resolve_hrefs(element, xmlids):
             continue # don't need to resolve this element
 
         elif e.get('href'):
-            resolved_element = xmlids[e.get('href').replace('#', '')]
+            resolved_element = xmlids.get(e.get('href').replace('#', ''), None)
             if resolved_element is None:
-                continue
+                raise Fault('Client.SoapError', "The href %r does not refer to "
+                                    "an element of the message." % e.get('href'))
             resolve_hrefs(resolved_element, xmlids)
 
             # copies the attributes
